@@ -102,6 +102,20 @@ func valOf(n int, fill byte) string {
 	if n <= 0 {
 		return ""
 	}
+	if fill >= 'A' && fill <= 'Z' && (fill-'A')%3 == 0 || fill >= 'a' && fill <= 'z' && (fill-'a')%4 == 1 {
+		// a third of the values are multi-byte UTF-8 (limits and sizes count bytes, not characters):
+		// exactly n bytes of "å" / "€" / "𝄞", padded with the fill byte
+		unit := []string{"å", "€", "𝄞"}[int(fill)%3]
+		key := -(n*256 + int(fill))
+		if v, ok := valPool[key]; ok {
+			return v
+		}
+		v := strings.Repeat(unit, n/len(unit)) + strings.Repeat(string([]byte{fill}), n%len(unit))
+		if len(valPool) < 8192 {
+			valPool[key] = v
+		}
+		return v
+	}
 	if fill == 0 {
 		fill = 'x'
 	}
@@ -453,7 +467,7 @@ func C09() *vk.Check {
 		ID:    "C09",
 		Level: "exploration",
 		Rule: "lock-step of cache.Cache against a reference cache (list of maps + limits + capacity). Cases: (1) every operation sequence of length<=5 (quick) / <=6 (thorough) over a 9-operation alphabet, for capacity 0 and capacity 10, enumerated exhaustively (distinct by construction); " +
-			"(2) PRNG sequences of 3..60 ops over Add/Update/Get/Push/Pop/Reset/Last/ReservedSize/Levels/Keys, 3-5 keys, lengths {0,1,limit-1,limit,limit+1,255,256,65535..65537,65536+limit,70000,131072+limit,random}, limits 0..65535, capacities {0,1,small,medium,~64k..140k}. " +
+			"(2) PRNG sequences of 3..60 ops over Add/Update/Get/Push/Pop/Reset/Last/ReservedSize/Levels/Keys, 3-5 keys, lengths in BYTES {0,1,limit-1,limit,limit+1,255,256,65535..65537,65536+limit,70000,131072+limit,random}, a third of the values made of multi-byte UTF-8 characters, limits 0..65535, capacities {0,1,small,medium,~64k..140k}. " +
 			"distinct = hash of (capacity, full op list); non-trivial = at least two mutating ops (add/update/pop/reset).",
 		Assumptions: []string{
 			"the accept/reject decision of the model follows the cache.Memory interface contract ('must fail if')",
